@@ -479,6 +479,104 @@ def new_writers(F, R):
                 R.bad("C08-R1", "%s:direct-store:%s" % (wb.path, fld), "%s @%s" % (wb.path, loc(st["span"])), "direct assignment of DiagMassMatrix.%s" % fld)
 
 
+def r8(F, R):
+    """Translation invariance of the running moments (exactness for any Gaussian mean)."""
+    from . import kernel as KN
+    R.rule("C08-R8", "running moments are translation invariant: in the element update of Math::array_update_variance, adding the same constant c to the sample "
+                     "and to the running mean leaves the stored variance accumulator unchanged and moves the stored mean by exactly c (polynomial identity of "
+                     "the update expressions). An accumulator of raw powers (sum of x*x, centred only when read) cancels catastrophically for |mean| >> sd "
+                     "and cannot recover the standard deviation `to rounding`")
+    impls = [b for b in F.trait_method_impls("Math", "array_update_variance") if path_ends(b.parent.get("self_adt") or "", "cpu_math::CpuMath")]
+    if not impls:
+        R.missing("C08-R8", "impl Math::array_update_variance for CpuMath")
+        return
+    for kb in impls:
+        site = "%s @%s" % (kb.path, kb.loc())
+        key = kb.path + ":shift"
+        pb = K.param_bindings(kb)
+        pid2idx = {bid: i for i, (bid, _n) in enumerate(pb)}
+        done = False
+        for fe in [x for x in hir_walk(kb.hir["value"]) if x.get("k") == "MethodCall" and x.get("method") == "for_each"]:
+            clo = K.peel(fe["args"][0])
+            if clo.get("k") != "Closure":
+                continue
+            order = []
+            for x in hir_walk(fe["recv"]):
+                if x.get("k") == "Path":
+                    lid = K.local_id(x)
+                    if lid in pid2idx and pid2idx[lid] not in order:
+                        order.append(pid2idx[lid])
+            prm = clo["params"][0]
+            while prm.get("k") == "Ref":
+                prm = prm["pat"]
+            elems = prm["pats"] if prm.get("k") == "Tuple" else [prm]
+            if len(elems) != len(order) or len(elems) != 3:
+                continue
+            ev = KN.Eval()
+            atoms = {}
+            for q, pi in zip(elems, order):
+                while q.get("k") in ("Ref", "Deref"):
+                    q = q["pat"]
+                if q.get("k") == "Binding":
+                    atoms[pi] = ("in", pi, 0)
+                    ev.env[q["id"]] = KN.patom(atoms[pi])
+            ev.ev(clo["body"])
+            outs = {k[1]: v for k, v in ev.outputs.items()}
+            ins = [pi for pi in atoms if pi not in outs]
+            if len(outs) != 2 or len(ins) != 1 or ev.notes:
+                R.bad("C08-R8", key, site, "update closure not understood: %d stored operands, %d read-only operands %s" % (len(outs), len(ins), ev.notes[:2]))
+                done = True
+                continue
+            x = ins[0]
+            c = KN.patom(("var", "shift_c"))
+            found = None
+            for m_i in outs:
+                v_i = [o for o in outs if o != m_i][0]
+                sub = {atoms[x]: KN.padd(KN.patom(atoms[x]), c), atoms[m_i]: KN.padd(KN.patom(atoms[m_i]), c)}
+                v_shift = KN.psubst(outs[v_i], sub)
+                m_shift = KN.psubst(outs[m_i], sub)
+                if KN.pkey(v_shift) == KN.pkey(outs[v_i]) and KN.pkey(m_shift) == KN.pkey(KN.padd(outs[m_i], c)):
+                    found = (m_i, v_i)
+            done = True
+            names = {i: n for i, (_b, n) in enumerate(pb)}
+            if found:
+                R.ok("C08-R8", key, site, "mean' = %s, var' = %s: shifting %s and %s by c shifts mean' by c and leaves var' unchanged" % (
+                    KN.pshow(outs[found[0]])[:80], KN.pshow(outs[found[1]])[:80], names.get(x), names.get(found[0])))
+            else:
+                R.bad("C08-R8", key, site, "the running moments are not translation invariant (%s): a raw power sum loses the variance of an offset Gaussian to cancellation" % (
+                    "; ".join("%s' = %s" % (names.get(i), KN.pshow(p)[:70]) for i, p in sorted(outs.items()))))
+        if not done:
+            R.bad("C08-R8", key, site, "no element closure over (mean, variance, value) found")
+    R.floor("C08-R8", 1)
+
+
+
+def r9(F, R):
+    """The kernels the transformations are updated with iterate whole vectors per element (C17-K8 analysis), in particular the log-determinant."""
+    from . import c17
+    names = set()
+    for b in F.bodies.values():
+        if not b.path.startswith(("transform::", "<transform::")):
+            continue
+        for bb, t in b.calls():
+            c = t["callee"]
+            if c.get("trait") and path_ends(c["trait"], "Math") and c.get("name"):
+                names.add(c["name"])
+    if "array_sum_ln" not in names:
+        R.missing("C08-R9", "Math::array_sum_ln called from the transformations")
+        return
+
+    def go(sub):
+        c17.k8(F, sub)
+        # keep the obligations of the Math methods the transformations use
+        sub.obligations = [o for o in sub.obligations if any(("Math>::%s:" % n) in o["key"] for n in names)]
+    K.borrow_rule(R, go, "C08-R9", "every CpuMath kernel called by the transformation code (%d methods, among them array_sum_ln for the log-determinant) visits "
+                  "each element exactly once and applies ln / is_finite per element, so that finite positive scales give a finite log-determinant "
+                  "(C17-K8 analysis restricted to those methods)" % len(names), only_rules={"C17-K8"})
+    R.floor("C08-R9", 5)
+
+
+
 def run(F, R, config=None):
     r1_r3(F, R)
     r7(F, R)
@@ -487,6 +585,8 @@ def run(F, R, config=None):
     r4(F, R)
     r5(F, R)
     r6(F, R)
+    r8(F, R)
+    r9(F, R)
     R.assume("user-supplied Math implementations other than CpuMath are outside the analysed world")
 
 
